@@ -23,11 +23,14 @@ import EPV.Gen.NohD
 import EPV.Gen.Noh2D
 import EPV.Gen.Noh2CogD
 import EPV.Spec.Euler1D
+import EPV.Lemmas.Euler1Db
 import EPV.Tactics
 
 set_option linter.all false
 
-open EPV EPV.Gen EPV.Spec
+open EPV EPV.Gen EPV.Spec EPV.Lemmas
+
+open Filter Topology
 
 namespace EPV.C01
 
@@ -328,5 +331,129 @@ theorem noh2cog_L9_energy (p : Noh2Cog.P) (r t : ℝ) (hr : r ≠ 0) (ht : t < 1
 
 example : ∃ p : Noh2Cog.P, ∃ r t : ℝ, r ≠ 0 ∧ t < 1 ∧ p.rho0 ≠ 0 ∧ p.gamma - 1 ≠ 0 :=
   ⟨⟨1, 5 / 3, 3, 1⟩, 1, 1 / 2, by norm_num, by norm_num, by norm_num, by norm_num⟩
+
+/-! ### The returned (tree-level) fields
+
+`Noh`: away from the shock r = |u₀| t (γ-1)/2; `Noh2`, `Noh2Cog`: for t < 1 (and an accepted
+geometry).  The returned fields agree with those of one leaf near the point. -/
+
+/-- behind the shock the returned Noh fields are those of leaf 0 near the point -/
+theorem noh_tree_post (p : Noh.P) (r t : ℝ) (h : r < |p.u0| * t * (p.gamma - 1) / 2) :
+    AgreeNear (Noh.density p) (Noh.L0.density p) r t ∧ AgreeNear (Noh.velocity p) (Noh.L0.velocity p) r t
+      ∧ AgreeNear (Noh.pressure p) (Noh.L0.pressure p) r t
+      ∧ AgreeNear (Noh.specific_internal_energy p) (Noh.L0.specific_internal_energy p) r t := by
+  have hx : ∀ᶠ x in 𝓝 r, Noh.c0 p x t := by
+    simp only [epv_cond]; exact eventually_lt_nhds h
+  have hs : ∀ᶠ s in 𝓝 t, Noh.c0 p r s := by
+    simp only [epv_cond]
+    have hc : ContinuousAt (fun s : ℝ => |p.u0| * s * (p.gamma - 1) / 2) t := by fun_prop
+    exact continuousAt_const.eventually_lt hc h
+  exact ⟨agreeNear_of_cond (fun x s hc => by simp only [epv_tree, if_pos hc]) hx hs,
+    agreeNear_of_cond (fun x s hc => by simp only [epv_tree, if_pos hc]) hx hs,
+    agreeNear_of_cond (fun x s hc => by simp only [epv_tree, if_pos hc]) hx hs,
+    agreeNear_of_cond (fun x s hc => by simp only [epv_tree, if_pos hc]) hx hs⟩
+
+/-- ahead of the shock the returned Noh fields are those of leaf 1 near the point -/
+theorem noh_tree_pre (p : Noh.P) (r t : ℝ) (h : |p.u0| * t * (p.gamma - 1) / 2 < r) :
+    AgreeNear (Noh.density p) (Noh.L1.density p) r t ∧ AgreeNear (Noh.velocity p) (Noh.L1.velocity p) r t
+      ∧ AgreeNear (Noh.pressure p) (Noh.L1.pressure p) r t
+      ∧ AgreeNear (Noh.specific_internal_energy p) (Noh.L1.specific_internal_energy p) r t := by
+  have hx : ∀ᶠ x in 𝓝 r, ¬ Noh.c0 p x t := by
+    simp only [epv_cond, not_lt]
+    exact (eventually_gt_nhds h).mono fun x hx => hx.le
+  have hs : ∀ᶠ s in 𝓝 t, ¬ Noh.c0 p r s := by
+    simp only [epv_cond, not_lt]
+    have hc : ContinuousAt (fun s : ℝ => |p.u0| * s * (p.gamma - 1) / 2) t := by fun_prop
+    exact (hc.eventually_lt continuousAt_const h).mono fun s hs => hs.le
+  exact ⟨agreeNear_of_cond (c := fun x s => ¬ Noh.c0 p x s) (fun x s hc => by simp only [epv_tree, if_neg hc]) hx hs,
+    agreeNear_of_cond (c := fun x s => ¬ Noh.c0 p x s) (fun x s hc => by simp only [epv_tree, if_neg hc]) hx hs,
+    agreeNear_of_cond (c := fun x s => ¬ Noh.c0 p x s) (fun x s hc => by simp only [epv_tree, if_neg hc]) hx hs,
+    agreeNear_of_cond (c := fun x s => ¬ Noh.c0 p x s) (fun x s hc => by simp only [epv_tree, if_neg hc]) hx hs⟩
+
+/-- the three balance equations for the returned Noh fields at every point away from the shock
+(documented domain: r > 0, t ≥ 0, u₀ < 0) -/
+theorem noh_tree (p : Noh.P) (r t : ℝ) (hr : 0 < r) (ht : 0 ≤ t) (hu : p.u0 < 0)
+    (hsh : r ≠ |p.u0| * t * (p.gamma - 1) / 2) :
+    massRes (Noh.density p) (Noh.velocity p) (p.geometry - 1) r t = 0
+      ∧ momResP (Noh.density p) (Noh.velocity p) (Noh.pressure p) r t = 0
+      ∧ energyResE (Noh.density p) (Noh.velocity p) (Noh.pressure p) (Noh.specific_internal_energy p)
+          (p.geometry - 1) r t = 0 := by
+  rcases lt_or_gt_of_ne hsh with h | h
+  · obtain ⟨h1, h2, h3, h4⟩ := noh_tree_post p r t h
+    rw [massRes_congr_near h1 h2, momResP_congr_near h1 h2 h3, energyResE_congr_near h1 h2 h3 h4]
+    exact ⟨noh_post_mass p r t, noh_post_momentum p r t, noh_post_energy p r t⟩
+  · obtain ⟨h1, h2, h3, h4⟩ := noh_tree_pre p r t h
+    rw [massRes_congr_near h1 h2, momResP_congr_near h1 h2 h3, energyResE_congr_near h1 h2 h3 h4]
+    exact ⟨noh_pre_mass p r t hr ht hu, noh_pre_momentum p r t, noh_pre_energy p r t⟩
+
+/-- for t < 1 the returned Noh2 fields are those of leaf 1 near the point -/
+theorem noh2_tree_agree (p : Noh2.P) (r t : ℝ) (ht : t < 1) :
+    AgreeNear (Noh2.density p) (Noh2.L1.density p) r t ∧ AgreeNear (Noh2.velocity p) (Noh2.L1.velocity p) r t
+      ∧ AgreeNear (Noh2.pressure p) (Noh2.L1.pressure p) r t
+      ∧ AgreeNear (Noh2.specific_internal_energy p) (Noh2.L1.specific_internal_energy p) r t := by
+  have hx : ∀ᶠ x in 𝓝 r, t < 1 := Eventually.of_forall fun _ => ht
+  have hs : ∀ᶠ s in 𝓝 t, s < 1 := eventually_lt_nhds ht
+  have e : ∀ x s : ℝ, s < 1 → ¬ Noh2.c0 p x s := by
+    intro x s hc; simp only [epv_cond, not_le]; exact hc
+  exact ⟨agreeNear_of_cond (c := fun _ s => s < 1) (fun x s hc => by simp only [epv_tree, if_neg (e x s hc)]) hx hs,
+    agreeNear_of_cond (c := fun _ s => s < 1) (fun x s hc => by simp only [epv_tree, if_neg (e x s hc)]) hx hs,
+    agreeNear_of_cond (c := fun _ s => s < 1) (fun x s hc => by simp only [epv_tree, if_neg (e x s hc)]) hx hs,
+    agreeNear_of_cond (c := fun _ s => s < 1) (fun x s hc => by simp only [epv_tree, if_neg (e x s hc)]) hx hs⟩
+
+/-- the three balance equations for the returned Noh2 fields, t < 1 -/
+theorem noh2_tree (p : Noh2.P) (r t : ℝ) (hr : r ≠ 0) (ht : t < 1) (hρ : p.rho0 ≠ 0) :
+    massRes (Noh2.density p) (Noh2.velocity p) (p.geometry - 1) r t = 0
+      ∧ momResP (Noh2.density p) (Noh2.velocity p) (Noh2.pressure p) r t = 0
+      ∧ energyResE (Noh2.density p) (Noh2.velocity p) (Noh2.pressure p) (Noh2.specific_internal_energy p)
+          (p.geometry - 1) r t = 0 := by
+  obtain ⟨h1, h2, h3, h4⟩ := noh2_tree_agree p r t ht
+  rw [massRes_congr_near h1 h2, momResP_congr_near h1 h2 h3, energyResE_congr_near h1 h2 h3 h4]
+  exact ⟨noh2_mass p r t hr ht, noh2_momentum p r t ht, noh2_energy p r t hr ht hρ⟩
+
+/-- for t < 1 and an accepted geometry the returned Noh2Cog fields are those of leaf 5 (the three
+ok leaves carry the same expressions) -/
+theorem noh2cog_tree_eq (p : Noh2Cog.P) (hg : p.geometry = 1 ∨ p.geometry = 2 ∨ p.geometry = 3)
+    (x s : ℝ) (hs : s < 1) :
+    Noh2Cog.density p x s = Noh2Cog.L5.density p x s ∧ Noh2Cog.velocity p x s = Noh2Cog.L5.velocity p x s
+      ∧ Noh2Cog.pressure p x s = Noh2Cog.L5.pressure p x s
+      ∧ Noh2Cog.specific_internal_energy p x s = Noh2Cog.L5.specific_internal_energy p x s := by
+  have h1 : ¬ (1 : ℝ) ≤ s := not_le.2 hs
+  have h4 : ¬ (1 : ℝ) - s ≤ 0 := by linarith
+  simp only [epv_tree, epv_cond, h1, h4, if_false]
+  rcases hg with h | h | h
+  · rw [if_pos h, if_pos h, if_pos h, if_pos h]
+    exact ⟨rfl, rfl, rfl, rfl⟩
+  · have h' : ¬ p.geometry = 1 := by rw [h]; norm_num
+    rw [if_neg h', if_neg h', if_neg h', if_neg h', if_pos h, if_pos h, if_pos h, if_pos h]
+    exact ⟨rfl, rfl, rfl, rfl⟩
+  · have h' : ¬ p.geometry = 1 := by rw [h]; norm_num
+    have h'' : ¬ p.geometry = 2 := by rw [h]; norm_num
+    rw [if_neg h', if_neg h', if_neg h', if_neg h', if_neg h'', if_neg h'', if_neg h'', if_neg h'',
+      if_pos h, if_pos h, if_pos h, if_pos h]
+    exact ⟨rfl, rfl, rfl, rfl⟩
+
+theorem noh2cog_tree_agree (p : Noh2Cog.P) (hg : p.geometry = 1 ∨ p.geometry = 2 ∨ p.geometry = 3)
+    (r t : ℝ) (ht : t < 1) :
+    AgreeNear (Noh2Cog.density p) (Noh2Cog.L5.density p) r t
+      ∧ AgreeNear (Noh2Cog.velocity p) (Noh2Cog.L5.velocity p) r t
+      ∧ AgreeNear (Noh2Cog.pressure p) (Noh2Cog.L5.pressure p) r t
+      ∧ AgreeNear (Noh2Cog.specific_internal_energy p) (Noh2Cog.L5.specific_internal_energy p) r t := by
+  have hx : ∀ᶠ x in 𝓝 r, t < 1 := Eventually.of_forall fun _ => ht
+  have hs : ∀ᶠ s in 𝓝 t, s < 1 := eventually_lt_nhds ht
+  exact ⟨agreeNear_of_cond (c := fun _ s => s < 1) (fun x s hc => (noh2cog_tree_eq p hg x s hc).1) hx hs,
+    agreeNear_of_cond (c := fun _ s => s < 1) (fun x s hc => (noh2cog_tree_eq p hg x s hc).2.1) hx hs,
+    agreeNear_of_cond (c := fun _ s => s < 1) (fun x s hc => (noh2cog_tree_eq p hg x s hc).2.2.1) hx hs,
+    agreeNear_of_cond (c := fun _ s => s < 1) (fun x s hc => (noh2cog_tree_eq p hg x s hc).2.2.2) hx hs⟩
+
+/-- the three balance equations for the returned Noh2Cog fields, t < 1, geometry ∈ {1, 2, 3} -/
+theorem noh2cog_tree (p : Noh2Cog.P) (hg : p.geometry = 1 ∨ p.geometry = 2 ∨ p.geometry = 3)
+    (r t : ℝ) (hr : r ≠ 0) (ht : t < 1) (hρ : p.rho0 ≠ 0) (hγ : p.gamma - 1 ≠ 0) :
+    massRes (Noh2Cog.density p) (Noh2Cog.velocity p) (p.geometry - 1) r t = 0
+      ∧ momResP (Noh2Cog.density p) (Noh2Cog.velocity p) (Noh2Cog.pressure p) r t = 0
+      ∧ energyResE (Noh2Cog.density p) (Noh2Cog.velocity p) (Noh2Cog.pressure p)
+          (Noh2Cog.specific_internal_energy p) (p.geometry - 1) r t = 0 := by
+  obtain ⟨h1, h2, h3, h4⟩ := noh2cog_tree_agree p hg r t ht
+  rw [massRes_congr_near h1 h2, momResP_congr_near h1 h2 h3, energyResE_congr_near h1 h2 h3 h4]
+  exact ⟨noh2cog_L5_mass p r t hr ht, noh2cog_L5_momentum p r t ht, noh2cog_L5_energy p r t hr ht hρ hγ⟩
 
 end EPV.C01
